@@ -113,16 +113,24 @@ func (p *RawParams) AddUpload(upload Upload, key, path string) *gqlerror.Error {
 			return gqlerror.Errorf("path is missing \"variables.\" prefix, key: %s, path: %s", key, path)
 		}
 		if index, parseNbrErr := strconv.Atoi(p); parseNbrErr == nil {
+			arr, ok := ptr.([]any)
+			if !ok || index < 0 || index >= len(arr) {
+				return gqlerror.Errorf("invalid upload path %s for key %s", path, key)
+			}
 			if last {
-				ptr.([]any)[index] = upload
+				arr[index] = upload
 			} else {
-				ptr = ptr.([]any)[index]
+				ptr = arr[index]
 			}
 		} else {
+			m, ok := ptr.(map[string]any)
+			if !ok || (last && m == nil) {
+				return gqlerror.Errorf("invalid upload path %s for key %s", path, key)
+			}
 			if last {
-				ptr.(map[string]any)[p] = upload
+				m[p] = upload
 			} else {
-				ptr = ptr.(map[string]any)[p]
+				ptr = m[p]
 			}
 		}
 	}
